@@ -1821,7 +1821,7 @@ pub(crate) fn resolve_temp_id(id: &str) -> Option<usize> {
             if !x.is_uppercase() {
                 return None;
             }
-            return Some(id[2..].parse().ok()?);
+            return Some(id.get(2..)?.parse().ok()?);
         }
     }
     None
